@@ -1,0 +1,195 @@
+//go:build verif
+
+package cli
+
+// Verification hooks for the command (properties C15 and C16 of /verif).
+// Add-only: nothing here is compiled without the build tag `verif`.
+
+import (
+	"bytes"
+	"encoding/json"
+	"io"
+	"reflect"
+)
+
+// VerifChunk is one Write call of the command: Stream 1 = stdout, 2 = stderr.
+type VerifChunk struct {
+	Stream int
+	Data   []byte
+}
+
+type verifWriter struct {
+	stream int
+	log    *[]VerifChunk
+	total  *int
+}
+
+// VerifRunawayCode is the status VerifRunLog reports when the command wrote
+// more than VerifOutputLimit bytes (or chunks): the run is abandoned there.
+const (
+	VerifRunawayCode = -1000
+	VerifOutputLimit = 32 << 20
+)
+
+type verifRunaway struct{}
+
+func (w verifWriter) Write(p []byte) (int, error) {
+	*w.total += len(p) + 64
+	if *w.total > VerifOutputLimit {
+		panic(verifRunaway{})
+	}
+	*w.log = append(*w.log, VerifChunk{w.stream, append([]byte(nil), p...)})
+	return len(p), nil
+}
+
+type verifPipe struct{ r io.Reader }
+
+func (p verifPipe) Read(b []byte) (int, error) { return p.r.Read(b) }
+
+// VerifRunLog runs the real command in-process (the unexported cli.run) and
+// returns every Write call in order, and the status `run` returns (what
+// cmd/gojq passes to os.Exit). With seekable=false stdin behaves like a pipe.
+func VerifRunLog(args []string, stdin []byte, seekable bool) (chunks []VerifChunk, code int) {
+	var in io.Reader = bytes.NewReader(stdin)
+	if !seekable {
+		in = verifPipe{in}
+	}
+	total := 0
+	c := &cli{
+		inStream:  in,
+		outStream: verifWriter{1, &chunks, &total},
+		errStream: verifWriter{2, &chunks, &total},
+	}
+	defer func() {
+		if r := recover(); r != nil {
+			if _, ok := r.(verifRunaway); !ok {
+				panic(r)
+			}
+			code = VerifRunawayCode
+		}
+	}()
+	code = c.run(append([]string(nil), args...)) // parseFlags writes into args
+	return
+}
+
+// VerifRun is VerifRunLog with stdin as a pipe, split into the two streams.
+func VerifRun(args []string, stdin []byte) (stdout, stderr []byte, code int) {
+	chunks, code := VerifRunLog(args, stdin, false)
+	for _, c := range chunks {
+		if c.Stream == 1 {
+			stdout = append(stdout, c.Data...)
+		} else {
+			stderr = append(stderr, c.Data...)
+		}
+	}
+	return
+}
+
+// VerifStream returns the real jsonStream.next over a real json.Decoder
+// (configured as newStreamInputIter does).
+func VerifStream(r io.Reader) func() (any, error) {
+	dec := json.NewDecoder(r)
+	dec.UseNumber()
+	return newJSONStream(dec).next
+}
+
+// VerifTokens is the token list the same decoder configuration yields for the
+// bytes, up to and including the first error (io.EOF at a clean end).
+func VerifTokens(data []byte) (toks []json.Token, err error) {
+	dec := json.NewDecoder(bytes.NewReader(data))
+	dec.UseNumber()
+	for {
+		t, e := dec.Token()
+		if e != nil {
+			return toks, e
+		}
+		toks = append(toks, t)
+	}
+}
+
+// VerifEncode renders one value with the command's JSON encoder (no colours),
+// indent as createMarshaler passes it (-1 compact, 1 with tab=true, n spaces).
+func VerifEncode(v any, tab bool, indent int) ([]byte, error) {
+	defer func(x bool) { noColor = x }(noColor)
+	noColor = true
+	var b bytes.Buffer
+	err := newEncoder(tab, indent).marshal(v, &b)
+	return b.Bytes(), err
+}
+
+// VerifRender renders one value with the marshaler the command selects for
+// the given output flags (createMarshaler), without the terminator.
+func VerifRender(v any, raw, raw0, join, compact, tab bool, indent *int) ([]byte, error) {
+	defer func(x bool) { noColor = x }(noColor)
+	noColor = true
+	c := &cli{outputRaw: raw, outputRaw0: raw0, outputJoin: join,
+		outputCompact: compact, outputTab: tab, outputIndent: indent}
+	var b bytes.Buffer
+	err := c.createMarshaler().marshal(v, &b)
+	return b.Bytes(), err
+}
+
+// VerifInputs drains the real iterator stack createInputIter builds for the
+// given input-mode flags: every value or error `Next` returns, in order.
+// files are opened by name ("-" is stdin); no files means stdin only.
+func VerifInputs(raw, stream, slurp bool, files []string, stdin []byte) (items []any) {
+	c := &cli{inStream: verifPipe{bytes.NewReader(stdin)}, inputRaw: raw, inputStream: stream, inputSlurp: slurp}
+	iter := c.createInputIter(files)
+	defer iter.Close()
+	for n := 0; n < 1<<16; n++ {
+		v, ok := iter.Next()
+		if !ok {
+			break
+		}
+		items = append(items, v)
+	}
+	return
+}
+
+// VerifFlagValue is one field of the option struct after parseFlags, found by
+// the same reflection over struct tags parseFlags itself uses.
+type VerifFlagValue struct {
+	Long, Short string
+	Kind        string // bool, int, list, positional, map
+	Bool        bool
+	Int         *int
+	List        []string
+	Positional  []any // string or nil
+	Map         map[string]string
+}
+
+// VerifParseFlags runs the real flag parser on a copy of args and reports the
+// remaining arguments and every tagged field of flagopts, in field order.
+func VerifParseFlags(args []string) (rest []string, fields []VerifFlagValue, err error) {
+	var o flagopts
+	rest, err = parseFlags(append([]string(nil), args...), &o)
+	val := reflect.ValueOf(&o).Elem()
+	typ := val.Type()
+	for i := range val.NumField() {
+		tag := typ.Field(i).Tag
+		long, ok := tag.Lookup("long")
+		if !ok {
+			continue
+		}
+		f := VerifFlagValue{Long: long, Short: tag.Get("short")}
+		switch v := val.Field(i).Interface().(type) {
+		case bool:
+			f.Kind, f.Bool = "bool", v
+		case *int:
+			f.Kind, f.Int = "int", v
+		case []string:
+			f.Kind, f.List = "list", v
+		case []any:
+			f.Kind, f.Positional = "list", v
+			if _, ok := tag.Lookup("positional"); ok {
+				f.Kind = "positional"
+			}
+		case map[string]string:
+			f.Kind, f.Map = "map", v
+		default:
+			f.Kind = "?" + val.Field(i).Kind().String()
+		}
+		fields = append(fields, f)
+	}
+	return
+}
